@@ -409,6 +409,12 @@ def normalise(fn, world=None, modname=None, cls=None, primitives=(),
         fn = inl.expand(fn)
         info["inlined"] = inl.inlined
     parent = getattr(fn, "_parent", None)
+    if any(isinstance(n, ast.YieldFrom) and isinstance(
+            n.value, ast.GeneratorExp) for n in ast.walk(fn)):
+        fn = acopy(fn)
+        if expand_yield_from_genexp(fn):
+            ast.fix_missing_locations(fn)
+            info["inlined"] = info["inlined"] + ["<yield-from-genexp>"]
     if detable:
         from . import unroll as _un
         from .unroll import detable as _detable
@@ -567,3 +573,52 @@ def loop_to_tailcall(fn):
     out.body = tail([acopy(s) for s in w.body], {})
     ast.fix_missing_locations(out)
     return out
+
+
+def expand_yield_from_genexp(fn):
+    """`yield from (E for x in IT if C)` as the loop it abbreviates,
+    `for x in IT: if C: yield E` (a generator expression ignores what is
+    sent to it, like the expression statement `yield E`); a conditional
+    element `A if c else B` becomes if/else around two yields.  Returns the
+    number of rewrites (fn modified in place)."""
+    cnt = [0]
+
+    def yields(elt, at):
+        if isinstance(elt, ast.IfExp):
+            return [ast.copy_location(ast.If(elt.test, yields(elt.body, at),
+                                             yields(elt.orelse, at)), at)]
+        return [ast.copy_location(ast.Expr(ast.Yield(elt)), at)]
+
+    def block(stmts):
+        out = []
+        for s in stmts:
+            for fld in ("body", "orelse", "finalbody"):
+                sub = getattr(s, fld, None)
+                if isinstance(sub, list) and sub and isinstance(
+                        sub[0], ast.stmt) and not isinstance(
+                            s, (ast.FunctionDef, ast.AsyncFunctionDef,
+                                ast.ClassDef)):
+                    setattr(s, fld, block(sub))
+            if isinstance(s, ast.Try):
+                for h in s.handlers:
+                    h.body = block(h.body)
+            if isinstance(s, ast.Expr) and isinstance(
+                    s.value, ast.YieldFrom) and isinstance(
+                        s.value.value, ast.GeneratorExp) and not any(
+                            g.is_async for g in s.value.value.generators):
+                ge = s.value.value
+                body = yields(ge.elt, s)
+                for g in reversed(ge.generators):
+                    for c in reversed(g.ifs):
+                        body = [ast.copy_location(ast.If(c, body, []), s)]
+                    body = [ast.copy_location(ast.For(g.target, g.iter, body,
+                                                      []), s)]
+                for x in body:
+                    ast.fix_missing_locations(x)
+                out += body
+                cnt[0] += 1
+                continue
+            out.append(s)
+        return out
+    fn.body = block(fn.body)
+    return cnt[0]
